@@ -132,11 +132,20 @@ def run_case(case, drv):
             impl_tup.append("raise:" + type(e).__name__)
     # ---------------- model
     st, md = FU.model_data(drv, o, form)
+    # (the property fixes no enumeration ORDER: a model whose variables are the same tuples in another order is compared through the
+    #  relabelling to_model[k_impl] = k_model, see form_util "enumeration order")
+    tm = md.get("order") if st == "ok" else None
+    if tm is not None:
+        res.features.append("enumeration-order:differs-from-model(relabelled)")
     if st == "ok" and md["vars"] != impl_vars:
-        res.disagree(f"{form} variable list (in order)", impl_vars[:12], md["vars"][:12])
-    rep = drv.ask(f"{form}.lookup {inst} {len(box)} {' '.join(tstr(u) for u in box)} {len(idxs)} {' '.join(map(str, idxs))}")
+        res.disagree(f"{form} variable list", impl_vars[:12], md["vars"][:12])
+    idxs_model = idxs if tm is None else [tm[k] if k < len(tm) else k for k in idxs]
+    rep = drv.ask(f"{form}.lookup {inst} {len(box)} {' '.join(tstr(u) for u in box)} {len(idxs)} {' '.join(map(str, idxs_model))}")
     head, groups = core.split_reply(rep)
     m_idx = [None if t == "none" else int(t) for t in groups[0][1:]]
+    if tm is not None:
+        inv = {km: k for k, km in enumerate(tm)}
+        m_idx = [None if v is None else inv.get(v, v) for v in m_idx]
     if m_idx != impl_idx:
         bad = [(u, a, b) for u, a, b in zip(box, impl_idx, m_idx) if a != b][:3]
         res.disagree(f"{form} tuple->index lookups", [b[1] for b in bad], [(b[0], b[2]) for b in bad])
